@@ -105,15 +105,20 @@ SnssaiV == IF Len(Cfg.sd) = 3 THEN [SST |-> [Value |-> <<Cfg.sst>>], SD |-> [Val
 \* an AMF may serve several PLMNs (scenario option amfOtherPlmnFirst): another PLMN is then listed in front of the gNB's in the served
 \* GUAMI list and in the PLMN support list; the gNB keeps announcing its own PLMN
 OtherPlmn == <<153, 249, 153>>
-OtherFirst == "amfOtherPlmnFirst" \in DOMAIN Scn /\ Scn.amfOtherPlmnFirst
+\* amfOtherPlmn: 0 = only the gNB's PLMN, 1 = another PLMN listed in front of it, 2 = another PLMN listed behind it
+OtherMode == IF "amfOtherPlmn" \in DOMAIN Scn THEN Scn.amfOtherPlmn ELSE IF "amfOtherPlmnFirst" \in DOMAIN Scn /\ Scn.amfOtherPlmnFirst THEN 1 ELSE 0
+OtherFirst == OtherMode = 1
+OtherLast == OtherMode = 2
+OtherGuami == [GUAMI |-> [GuamiV EXCEPT !.PLMNIdentity = [Value |-> OtherPlmn]], BackupAMFName |-> [Value |-> <<65, 77, 70, 45, 50>>]]
 PlmnSupportItem(pl) == [PLMNIdentity |-> [Value |-> pl], SliceSupportList |-> [List |-> << [SNSSAI |-> SnssaiV] >>]]
 NgSetupResponse ==
    NgapPdu(1, Proc.NGSetup, 0, "NGSetupResponse",
       << IeR(1, 0, "AMFName", [Value |-> <<65, 77, 70>>]),
-         IeR(96, 0, "ServedGUAMIList", [List |-> (IF OtherFirst THEN << [GUAMI |-> [GuamiV EXCEPT !.PLMNIdentity = [Value |-> OtherPlmn]], BackupAMFName |-> [Value |-> <<65, 77, 70, 45, 50>>]] >> ELSE <<>>)
-                                                  \o << [GUAMI |-> GuamiV] >>]),
+         IeR(96, 0, "ServedGUAMIList", [List |-> (IF OtherFirst THEN << OtherGuami >> ELSE <<>>) \o << [GUAMI |-> GuamiV] >>
+                                                  \o (IF OtherLast THEN << OtherGuami >> ELSE <<>>)]),
          IeR(86, 1, "RelativeAMFCapacity", [Value |-> [n |-> 255]]),
-         IeR(80, 0, "PLMNSupportList", [List |-> (IF OtherFirst THEN << PlmnSupportItem(OtherPlmn) >> ELSE <<>>) \o << PlmnSupportItem(CfgPlmn) >>]) >>)
+         IeR(80, 0, "PLMNSupportList", [List |-> (IF OtherFirst THEN << PlmnSupportItem(OtherPlmn) >> ELSE <<>>) \o << PlmnSupportItem(CfgPlmn) >>
+                                                  \o (IF OtherLast THEN << PlmnSupportItem(OtherPlmn) >> ELSE <<>>)]) >>)
 \* the plain form and, for a UE whose context exists, the form with the optional IEs of TS 38.413 9.2.5.2 (RAN paging priority before
 \* the NAS-PDU; mobility restriction list, index to RAT/frequency selection priority, UE-AMBR, allowed NSSAI behind it)
 DlNasTransport(c, nas) ==
@@ -121,7 +126,8 @@ DlNasTransport(c, nas) ==
 DlNasTransportOpt(c, ch, nas) ==
    IF ch.optIEs < 2 THEN DlNasTransport(c, nas)
    ELSE NgapPdu(0, Proc.DownlinkNASTransport, 1, "DownlinkNASTransport",
-           IdIes(c) \o << IeR(83, 1, "RANPagingPriority", [Value |-> [n |-> 256]]),
+           IdIes(c) \o << IeR(48, 0, "OldAMF", [Value |-> <<79, 76, 68>>]),
+                          IeR(83, 1, "RANPagingPriority", [Value |-> [n |-> 256]]),
                           IeR(38, 0, "NASPDU", [Value |-> nas]),
                           IeR(36, 1, "MobilityRestrictionList", [ServingPLMN |-> [Value |-> CfgPlmn]]),
                           IeR(31, 1, "IndexToRFSP", [Value |-> [n |-> 256]]),
